@@ -413,6 +413,12 @@ def run(tier, seed):
         elif j["name"] in RUNNING_ONLY and j["mode"] in ("sanity", "sanity-its"):
             if any(c == 11 for _o, c in f):
                 chk.spec_violations.append(dict(desc, findings=[("%X" % o, c) for o, c in f][:8], what="a purely stateful (running) violation is reported by `check sanity`"))
+        elif j["mode"] in ("sanity", "sanity-its") and CATALOGUE[j["name"]][2] is RUN_ITS:
+            # the state-dependent word rules (documented under `ITS payload running checks`: CDW index, TDH continuation / bc / orbit, DDW0
+            # page) are as stateful as the RDH running rules: `check sanity` -- with or without the its target -- reports none of them (seed C02-J)
+            if any(c in j["fam"] for c in at):
+                chk.spec_violations.append(dict(desc, codes_at_offset=at, findings=[("%X" % o, c) for o, c in f][:8],
+                                                what="a purely stateful (running) ITS word rule is reported by `check sanity`"))
         if len(samples) < 4 and j["active"] and at:
             samples.append(dict(desc, exit=rc, codes_at_offset=at))
     missing = [n for n in names if covered.get(n, 0) == 0]
